@@ -273,6 +273,8 @@ def build_plain(inp):
             c.why = "command %d (%s) raised but changed a held view" % (k + 1, json.dumps(cmd)[:80])
             break
         prev = cells
+    if c.why is None:
+        c.why = lazy_disagreement(inp, obs)
     return c
 
 
